@@ -440,13 +440,19 @@ def dynamics_spec(rng, ctx, *, sl_bias=0.35, schedule=True, kind=None, same_solv
     elif kind == 'split':
         n1 = rng.randint(2, total - 2)
         o1, _, _ = gen.run_op(rng, dt_si=dt, steps=(n1, n1), unit=unit)
-        o2, _, _ = gen.run_op(rng, dt_si=dt, steps=(total - n1, total - n1), unit=unit)
+        # the continuation may use another time step
+        o2, _, _ = gen.run_op(rng, dt_si=dt * rng.choice([1, 1, 0.5, 2]), steps=(total - n1, total - n1), unit=unit)
         ops = [o1, o2]
     elif kind == 'reset':
         n1 = rng.randint(2, total // 2)
         o1, _, _ = gen.run_op(rng, dt_si=dt, steps=(n1, n1), unit=unit)
         o2, _, _ = gen.run_op(rng, dt_si=dt, steps=(total - n1, total - n1), unit=unit)
         ops = [o1, {'op': 'reset'}, {'op': 'init', 'pos': spec['init']['pos'], 'speed': spec['init']['speed']}]
+        if rng.random() < 0.4:
+            # the rerun starts from other initial conditions (often at rest)
+            ops[2] = {'op': 'init', 'pos': gen.in_unit(rng, 'AngularPosition', gen.dy(rng, -2, 2), ru),
+                      'speed': gen.in_unit(rng, 'AngularSpeed', 0.0 if rng.random() < 0.6 else gen.dy(rng, -3, 3), ru)}
+            gen.angle_init(rng, ops[2], p=0.3)
         if (rng.random() < 0.5) if same_solver is None else (not same_solver):
             ops.append({'op': 'new'})
         ops.append(o2)
@@ -461,12 +467,12 @@ def dynamics_spec(rng, ctx, *, sl_bias=0.35, schedule=True, kind=None, same_solv
         newc = [c0[0] * rng.choice([0.5, 2, -1]) + rng.choice([0, 0.25]), c0[1], c0[2] * rng.choice([1, 0, 2]), c0[3], 0.0 if len(c0) < 5 else c0[4]]
         at = len(ops) - 1
         ops.insert(at, {'op': 'load', 'coef': newc})
-    if rng.random() < 0.15:
-        inject_reunit(rng, spec, ops)
     if redeclare is None:
         redeclare = rng.random() < 0.15
     if redeclare:
         inject_redeclare(rng, spec, ops)
+    if rng.random() < 0.15:
+        inject_reunit(rng, spec, ops)
     return spec
 
 
@@ -487,10 +493,14 @@ def inject_reunit(rng, spec, ops, k=None):
     if not runs:
         return
     at = rng.choice(runs)
+    # a later re-declaration compares modules / helix angles of the pair for equality: a there-and-back conversion
+    # moves them by an ulp, so these are left alone in schedules that re-declare a relation
+    later_decl = any(op['op'] == 'redeclare' for op in ops)
     for _ in range(k or rng.randint(1, 3)):
         oi = rng.randrange(len(spec['elems']) + 1)
         ty = 'motor' if oi == 0 else spec['elems'][oi - 1]['type']
-        attr, kind = rng.choice(REUNIT[ty])
+        cands = [(a, kd) for a, kd in REUNIT[ty] if not (later_decl and a in ('module', 'helix_angle'))]
+        attr, kind = rng.choice(cands)
         ops.insert(at, {'op': 'reunit', 'obj': oi, 'attr': attr, 'unit': rng.choice(list(SI[kind].keys()))})
 
 
@@ -1295,6 +1305,13 @@ def eval_unit_step(ctx, n):
         solver = Solver(b.pt)
         if not hasattr(solver, '_time_integration'):
             ctx.note('Solver._time_integration not found: unit-level step stream skipped')
+            return
+        import inspect
+        try:
+            if 'time_discretization' not in inspect.signature(solver._time_integration).parameters:
+                ctx.note('Solver._time_integration has another signature: unit-level step stream skipped')
+                return
+        except (TypeError, ValueError):
             return
         last = b.E[-1]
         c = {'t': 'ustep', 'pos': gen.in_unit(rng, 'AngularPosition', rng.uniform(-50, 50), True),
